@@ -1,27 +1,45 @@
-lib/Bytes.vo lib/Bytes.glob lib/Bytes.v.beautified lib/Bytes.required_vo: lib/Bytes.v 
-lib/Bytes.vio: lib/Bytes.v 
-lib/Bytes.vos lib/Bytes.vok lib/Bytes.required_vos: lib/Bytes.v 
-lib/Utf8.vo lib/Utf8.glob lib/Utf8.v.beautified lib/Utf8.required_vo: lib/Utf8.v lib/Bytes.vo
-lib/Utf8.vio: lib/Utf8.v lib/Bytes.vio
-lib/Utf8.vos lib/Utf8.vok lib/Utf8.required_vos: lib/Utf8.v lib/Bytes.vos
 gen/Facts_HTMLEscape.vo gen/Facts_HTMLEscape.glob gen/Facts_HTMLEscape.v.beautified gen/Facts_HTMLEscape.required_vo: gen/Facts_HTMLEscape.v 
 gen/Facts_HTMLEscape.vio: gen/Facts_HTMLEscape.v 
 gen/Facts_HTMLEscape.vos gen/Facts_HTMLEscape.vok gen/Facts_HTMLEscape.required_vos: gen/Facts_HTMLEscape.v 
+gen/Facts_alu.vo gen/Facts_alu.glob gen/Facts_alu.v.beautified gen/Facts_alu.required_vo: gen/Facts_alu.v lib/GoInt.vo
+gen/Facts_alu.vio: gen/Facts_alu.v lib/GoInt.vio
+gen/Facts_alu.vos gen/Facts_alu.vok gen/Facts_alu.required_vos: gen/Facts_alu.v lib/GoInt.vos
 gen/Facts_escapers.vo gen/Facts_escapers.glob gen/Facts_escapers.v.beautified gen/Facts_escapers.required_vo: gen/Facts_escapers.v 
 gen/Facts_escapers.vio: gen/Facts_escapers.v 
 gen/Facts_escapers.vos gen/Facts_escapers.vok gen/Facts_escapers.required_vos: gen/Facts_escapers.v 
+lib/Bytes.vo lib/Bytes.glob lib/Bytes.v.beautified lib/Bytes.required_vo: lib/Bytes.v 
+lib/Bytes.vio: lib/Bytes.v 
+lib/Bytes.vos lib/Bytes.vok lib/Bytes.required_vos: lib/Bytes.v 
+lib/GoBits.vo lib/GoBits.glob lib/GoBits.v.beautified lib/GoBits.required_vo: lib/GoBits.v lib/GoInt.vo
+lib/GoBits.vio: lib/GoBits.v lib/GoInt.vio
+lib/GoBits.vos lib/GoBits.vok lib/GoBits.required_vos: lib/GoBits.v lib/GoInt.vos
+lib/GoInt.vo lib/GoInt.glob lib/GoInt.v.beautified lib/GoInt.required_vo: lib/GoInt.v 
+lib/GoInt.vio: lib/GoInt.v 
+lib/GoInt.vos lib/GoInt.vok lib/GoInt.required_vos: lib/GoInt.v 
+lib/Utf8.vo lib/Utf8.glob lib/Utf8.v.beautified lib/Utf8.required_vo: lib/Utf8.v lib/Bytes.vo
+lib/Utf8.vio: lib/Utf8.v lib/Bytes.vio
+lib/Utf8.vos lib/Utf8.vok lib/Utf8.required_vos: lib/Utf8.v lib/Bytes.vos
+model/AluM.vo model/AluM.glob model/AluM.v.beautified model/AluM.required_vo: model/AluM.v lib/GoInt.vo gen/Facts_alu.vo
+model/AluM.vio: model/AluM.v lib/GoInt.vio gen/Facts_alu.vio
+model/AluM.vos model/AluM.vok model/AluM.required_vos: model/AluM.v lib/GoInt.vos gen/Facts_alu.vos
 model/HTMLEscapeM.vo model/HTMLEscapeM.glob model/HTMLEscapeM.v.beautified model/HTMLEscapeM.required_vo: model/HTMLEscapeM.v lib/Bytes.vo gen/Facts_HTMLEscape.vo
 model/HTMLEscapeM.vio: model/HTMLEscapeM.v lib/Bytes.vio gen/Facts_HTMLEscape.vio
 model/HTMLEscapeM.vos model/HTMLEscapeM.vok model/HTMLEscapeM.required_vos: model/HTMLEscapeM.v lib/Bytes.vos gen/Facts_HTMLEscape.vos
 model/HtmlDecode.vo model/HtmlDecode.glob model/HtmlDecode.v.beautified model/HtmlDecode.required_vo: model/HtmlDecode.v lib/Bytes.vo lib/Utf8.vo
 model/HtmlDecode.vio: model/HtmlDecode.v lib/Bytes.vio lib/Utf8.vio
 model/HtmlDecode.vos model/HtmlDecode.vok model/HtmlDecode.required_vos: model/HtmlDecode.v lib/Bytes.vos lib/Utf8.vos
+proofs/Alu_proofs.vo proofs/Alu_proofs.glob proofs/Alu_proofs.v.beautified proofs/Alu_proofs.required_vo: proofs/Alu_proofs.v lib/GoInt.vo gen/Facts_alu.vo model/AluM.vo lib/GoBits.vo
+proofs/Alu_proofs.vio: proofs/Alu_proofs.v lib/GoInt.vio gen/Facts_alu.vio model/AluM.vio lib/GoBits.vio
+proofs/Alu_proofs.vos proofs/Alu_proofs.vok proofs/Alu_proofs.required_vos: proofs/Alu_proofs.v lib/GoInt.vos gen/Facts_alu.vos model/AluM.vos lib/GoBits.vos
 proofs/HTMLEscape_proofs.vo proofs/HTMLEscape_proofs.glob proofs/HTMLEscape_proofs.v.beautified proofs/HTMLEscape_proofs.required_vo: proofs/HTMLEscape_proofs.v lib/Bytes.vo gen/Facts_HTMLEscape.vo model/HTMLEscapeM.vo lib/Utf8.vo model/HtmlDecode.vo proofs/HtmlDecode_proofs.vo
 proofs/HTMLEscape_proofs.vio: proofs/HTMLEscape_proofs.v lib/Bytes.vio gen/Facts_HTMLEscape.vio model/HTMLEscapeM.vio lib/Utf8.vio model/HtmlDecode.vio proofs/HtmlDecode_proofs.vio
 proofs/HTMLEscape_proofs.vos proofs/HTMLEscape_proofs.vok proofs/HTMLEscape_proofs.required_vos: proofs/HTMLEscape_proofs.v lib/Bytes.vos gen/Facts_HTMLEscape.vos model/HTMLEscapeM.vos lib/Utf8.vos model/HtmlDecode.vos proofs/HtmlDecode_proofs.vos
 proofs/HtmlDecode_proofs.vo proofs/HtmlDecode_proofs.glob proofs/HtmlDecode_proofs.v.beautified proofs/HtmlDecode_proofs.required_vo: proofs/HtmlDecode_proofs.v lib/Bytes.vo lib/Utf8.vo model/HtmlDecode.vo
 proofs/HtmlDecode_proofs.vio: proofs/HtmlDecode_proofs.v lib/Bytes.vio lib/Utf8.vio model/HtmlDecode.vio
 proofs/HtmlDecode_proofs.vos proofs/HtmlDecode_proofs.vok proofs/HtmlDecode_proofs.required_vos: proofs/HtmlDecode_proofs.v lib/Bytes.vos lib/Utf8.vos model/HtmlDecode.vos
+props/C01.vo props/C01.glob props/C01.v.beautified props/C01.required_vo: props/C01.v lib/GoInt.vo gen/Facts_alu.vo model/AluM.vo proofs/Alu_proofs.vo
+props/C01.vio: props/C01.v lib/GoInt.vio gen/Facts_alu.vio model/AluM.vio proofs/Alu_proofs.vio
+props/C01.vos props/C01.vok props/C01.required_vos: props/C01.v lib/GoInt.vos gen/Facts_alu.vos model/AluM.vos proofs/Alu_proofs.vos
 props/C24.vo props/C24.glob props/C24.v.beautified props/C24.required_vo: props/C24.v lib/Bytes.vo gen/Facts_HTMLEscape.vo model/HTMLEscapeM.vo model/HtmlDecode.vo proofs/HTMLEscape_proofs.vo
 props/C24.vio: props/C24.v lib/Bytes.vio gen/Facts_HTMLEscape.vio model/HTMLEscapeM.vio model/HtmlDecode.vio proofs/HTMLEscape_proofs.vio
 props/C24.vos props/C24.vok props/C24.required_vos: props/C24.v lib/Bytes.vos gen/Facts_HTMLEscape.vos model/HTMLEscapeM.vos model/HtmlDecode.vos proofs/HTMLEscape_proofs.vos
